@@ -26,6 +26,26 @@
 (*   generation is judged against the file's affine, not only the first.    *)
 (*   The affine (A, a) is what nibabel reports as img.affine for the file   *)
 (*   (the sform); it may disagree with the header's pixdim.                 *)
+(*   DECLARED SPATIAL UNIT.  c.unit = <<num, den>> is the spatial unit the   *)
+(*   file declares (NIfTI xyzt_units) relative to the millimetre: micron     *)
+(*   <<1, 1000>>, metre <<1000, 1>>, mm / unknown <<1, 1>>.  The package     *)
+(*   documents that it reads every affine as millimetres; the statement      *)
+(*   only says "the file's affine" and "nanometres".  Weaker reading: for a  *)
+(*   file that declares another unit BOTH conventions are accepted - all     *)
+(*   lengths as millimetres, or all lengths in the declared unit - but       *)
+(*   resolution, transform and translation must follow the SAME one.  The    *)
+(*   harness re-encodes the printed numbers under the millimetre convention  *)
+(*   (o.res, o.t, ...) and under each declared unit (o.alts[k], with         *)
+(*   alts[k].unit: a pure change of unit of the same numbers, done in exact  *)
+(*   rationals so that a factor 10^9 never enters TLC's integers); an        *)
+(*   observation is accepted when the whole clause chain holds under the     *)
+(*   millimetre encoding or under the alternative whose unit equals c.unit.  *)
+(* kind "history": several generations in ONE process from ONE file path;   *)
+(*   the file may be replaced between the calls and ignore_scaling may       *)
+(*   alternate.  steps = Seq([vol, req, run, obs]) with vol = the file AS IT *)
+(*   IS ON DISK at the time of that call (data range under that call's       *)
+(*   scaling mode): every call is judged against it with the clauses of      *)
+(*   kind "info".                                                            *)
 (* kind "rerun": --generate-info run twice on ONE destination directory,    *)
 (*   first with volume first.vol into an empty directory, then with a       *)
 (*   different volume second.vol;  pre = what the destination held before   *)
@@ -92,7 +112,7 @@ HugePlacement(o, size) ==
 
 \* evaluated lazily, in the order a reader of the info meets them
 \* c = the volume [layout, shape, data, A, a, K] the observation must describe
-ObsClauseReq(c, o, req) ==
+ObsClauseMm(c, o, req) ==
   IF ~o.ok THEN "oracle:InfoRaised"
   ELSE IF o.size # F!ExpectedSize(c.shape) THEN "oracle:Size"
   ELSE IF o.channels # F!ExpectedChannels(c.layout, c.shape) THEN "oracle:Channels"
@@ -107,6 +127,20 @@ ObsClauseReq(c, o, req) ==
             /\ F!Placement(o.T, o.t, o.res, c.A, c.a, c.K, F!ExpectedSize(c.shape)))
        THEN "oracle:Placement"
   ELSE "ok"
+
+\* the same observation with its lengths read in another unit
+ObsUnder(o, alt) == [o EXCEPT !.res = alt.res, !.t = alt.t, !.nonrat = alt.nonrat,
+                              !.hugeres = alt.hugeres, !.huget = alt.huget]
+Mach(x) == x = "machinery:OutOfReach"
+\* millimetre convention, or (files declaring another unit) the declared unit
+ObsClauseReq(c, o, req) ==
+  LET base == ObsClauseMm(c, o, req) IN
+  IF base = "ok" \/ ~o.ok \/ c.unit = <<1, 1>> THEN base
+  ELSE LET alts == SelectSeq(o.alts, LAMBDA x : x.unit = c.unit)
+           r == [k \in 1..Len(alts) |-> ObsClauseMm(c, ObsUnder(o, alts[k]), req)]
+       IN IF \E k \in 1..Len(alts) : r[k] = "ok" THEN "ok"
+          ELSE IF Mach(base) \/ \E k \in 1..Len(alts) : Mach(r[k]) THEN "machinery:OutOfReach"
+          ELSE base
 
 ObsClause(c, o) == ObsClauseReq(c, o, o.req)
 
@@ -123,7 +157,6 @@ RerunClause(c) ==
       c1 == ObsClauseReq(f.vol, f.obs, f.req)
       g1 == ObsClauseReq(f.vol, g.obs, f.req)      \* the pair after run 2 against volume 1
       g2 == ObsClauseReq(g.vol, g.obs, g.req)      \* ... against volume 2
-      Mach(x) == x = "machinery:OutOfReach"
   IN IF f.run.outcome # "ok" THEN "oracle:InfoRaised"     \* into an empty directory: as kind "info"
      ELSE IF c1 # "ok" THEN c1
      ELSE IF Succeeded(g.run)
@@ -133,10 +166,17 @@ RerunClause(c) ==
                 ELSE Chk(g1 = "ok" \/ g2 = "ok", "oracle:RerunRefusalKeepsPair"))
      ELSE "ok"
 
+\* ---- several generations from one file path in one process --------------------
+HistoryClause(c) ==
+  FirstBad([k \in 1..Len(c.steps) |->
+              IF c.steps[k].run.outcome # "ok" THEN "oracle:InfoRaised"
+              ELSE ObsClauseReq(c.steps[k].vol, c.steps[k].obs, c.steps[k].req)])
+
 CompactClause(c) == Chk(F!CompactRoundTrip(c.M, c.parsed), "oracle:CompactRoundTrip")
 
 Clause(c) == IF c.kind = "info" THEN InfoClause(c)
              ELSE IF c.kind = "rerun" THEN RerunClause(c)
+             ELSE IF c.kind = "history" THEN HistoryClause(c)
              ELSE CompactClause(c)
 
 Init == tid \in 1..Len(Cases)
